@@ -208,11 +208,11 @@ pub fn run(cfg: &Cfg) -> (Log, Meta) {
     log.violate(format!("C03/enumerate/{}", e.split(':').next().unwrap_or("?").replace("lunar year ", "")), "enumerate", e.clone(), "panic".into(), "every month of years 0..9999 constructible".into());
   }
   log.merge(par_range(10000, 25, |y, l| check_year(y as i64, cfg, l)));
-  log.floor("month.leap_months", 3000);
-  log.floor("month.29_day_months", 50_000);
-  log.floor("month.30_day_months", 50_000);
+  log.floor("month.leap_months", 2000);
+  log.floor("month.29_day_months", 40_000);
+  log.floor("month.30_day_months", 40_000);
   log.floor("month.year_boundaries", 9_000);
-  log.floor("year.leap_years", 3000);
+  log.floor("year.leap_years", 2000);
   let meta = Meta {
     rule: format!(
       "exhaustive: all {} lunar months of years 0..9999 (labels from get_leap_month, each built by from_ym and freshly by new) are checked for 29/30 length, abutment with the following month, next(1)/next(-1), next(n) for {} step counts against the enumerated sequence{}, index in year; every year's month list, month count, leap placement, day count, 353-355/383-385 length and distance to the next new year. Non-trivial = leap months (counted).",
